@@ -711,6 +711,11 @@ class Master(loader.Loader):
             _LOGGER.warning('Server not found: %s', servername)
             return
 
+        # Only the apps listed in this request are unscheduled, whatever was
+        # asked for the last time the server was frozen.
+        for app in server.apps.values():
+            app.unschedule = False
+
         for appname in apps or []:
             app = server.apps.get(appname)
             if not app:
